@@ -101,8 +101,8 @@ def run_c06(tier, seed, rep, only_prop=False, scale=1):
         except RecursionError:
             rep.count("recursion-error(F3)")
             continue
-        for j, (fl, placed) in enumerate(res):
-            lines.append(fl); metas.append({"kind": "history", "ops": ops, "mode": mode, "compute_no": j})
+        for j, (fl, placed, acc, labs) in enumerate(res):
+            lines.append(fl); metas.append({"kind": "history", "ops": ops, "mode": mode, "compute_no": j, "acc": acc, "labels": labs})
         lines.append("perm|%s|%s" % (r1[0][1], r2[0][1])); metas.append({"kind": "perm", "labels": labelsA, "perm": perm, "opts": o, "mode": mode})
     answers = drive(lines)
     for line, meta, ans in zip(lines, metas, answers):
@@ -117,10 +117,19 @@ def run_c06(tier, seed, rep, only_prop=False, scale=1):
         corr = f["same"] in ("ok", "na") and f["struct"] == "ok"
         rep.case(line, nontrivial=int(f["layers"]) > 1 or meta["compute_no"] > 0, sample={"case": meta, "driver": ans})
         rep.count("compute_no=%d" % min(meta["compute_no"], 4)); rep.count("mode=" + meta["mode"])
-        if not corr and not only_prop:
-            # the model is a function of (accumulated options, current labels) only: a disagreement after a history is a purity failure
-            # when the same labels/options agree on a fresh engine; otherwise it is a plain correspondence failure
-            rep.corr_fail.append(("after this history the engine's result differs from the pure model: " + ans, payload))
+        if not corr:
+            # the model is a function of (accumulated options, current labels) only.  If a FRESH engine on fresh labels with those
+            # options agrees with the model while the engine with this history does not, the history itself is the failing input of C06
+            try:
+                fresh = I.run_history([("new", meta["acc"]), ("nodes", [tuple(x) for x in meta["labels"]]), ("compute",)], meta["mode"])[0][0]
+                fa = fields(drive([fresh])[0])
+                fresh_ok = fa["same"] in ("ok", "na") and fa["struct"] == "ok"
+            except Exception:
+                fresh_ok = False
+            if fresh_ok and f["same"] != "na":
+                rep.prop_fail.append(("C06: after this history the layout differs from what a fresh engine computes for the same labels and options: " + ans, payload))
+            elif not only_prop:
+                rep.corr_fail.append(("after this history the engine's result differs from the pure model: " + ans, payload))
 
 
 def run(pid, tier, seed, replay=None):
@@ -137,7 +146,7 @@ def run(pid, tier, seed, replay=None):
         elif m["kind"] == "force":
             line = I.run_force([tuple(x) for x in m["labels"]], m["opts"], m["mode"], want_layer_lines=False)[0]
         elif m["kind"] == "history":
-            line = I.run_history([tuple(o) for o in m["ops"]], m["mode"])[m["compute_no"]][0]
+            line = I.run_history([tuple(o) if not isinstance(o, tuple) else o for o in m["ops"]], m["mode"])[m["compute_no"]][0]
         else:
             r1 = I.run_history([("new", m["opts"]), ("nodes", [tuple(x) for x in m["labels"]]), ("compute",)], m["mode"])
             r2 = I.run_history([("new", m["opts"]), ("nodes", [tuple(x) for x in m["perm"]]), ("compute",)], m["mode"])
